@@ -41,6 +41,9 @@ type vSchema struct {
 	Props      map[string]*vSchema `json:"properties,omitempty"`
 	NoAddition bool                `json:"noAdditional,omitempty"` // additionalProperties: false
 	Items      *vSchema            `json:"items,omitempty"`
+	// C14 round 4: the schema given as its JSON document (Values/Schema2.v); the fields above are unused then
+	IsDoc bool `json:"isDoc,omitempty"`
+	Doc   any  `json:"doc,omitempty"`
 }
 
 type vDep struct {
@@ -101,6 +104,10 @@ func (s *vSchema) doc() any {
 func (s *vSchema) bytes() []byte {
 	if s.Invalid {
 		return []byte(`{"type": 12, "properties": [`)
+	}
+	if s.IsDoc {
+		b, _ := json.Marshal(s.Doc)
+		return b
 	}
 	b, _ := json.Marshal(s.doc())
 	return b
@@ -289,6 +296,9 @@ func coqVMap(m map[string]any) string {
 func coqSchema(s *vSchema) string {
 	if s.Invalid {
 		return "SInvalid"
+	}
+	if s.IsDoc {
+		return "(SDoc " + coqVal(normJSON(s.Doc)) + ")"
 	}
 	ty := "None"
 	switch s.Type {
